@@ -423,7 +423,7 @@ func (c18) Gen(rng *rand.Rand, tier string, i int) *sim.Scenario {
 			var script []string
 			for k := 0; k < 10; k++ {
 				script = append(script, pick(rng, "refuse", "closeEarly", fmt.Sprintf("status:%d:oops", serverStatus(rng)), fmt.Sprintf("status:%d:", serverStatus(rng)), fmt.Sprintf("status:200:198.51.100.%d", 1+p), fmt.Sprintf("status:%d:198.51.100.%d", serverStatus(rng), 50+p),
-					fmt.Sprintf("status:%d:nope", clientStatus(rng)), fmt.Sprintf("splitBody:%d:%d:198.51.100.%d\n", between(rng, 1, 12), pick(rng, 1, 50, 3000), 101+p), fmt.Sprintf("splitBody:%d:%d:%s198.51.100.%d", between(rng, 1, 90), pick(rng, 1, 50), strings.Repeat(" ", between(rng, 0, 80)), 121+p), fmt.Sprintf("status:200:\n\t 198.51.100.%d \r\n", 1+p), fmt.Sprintf("status:200:2001:DB8::%X", 10+p), "status:200:1.2.3", "status:200:256.1.1.1", "status:200:<html><body>198.51.100.9</body></html>", fmt.Sprintf("status:203:198.51.100.%d", 1+p), fmt.Sprintf("status:%d:198.51.100.%d", clientStatus(rng), 150+p), "status:200:not-an-ip", "status:200:", fmt.Sprintf("status:200:  2001:db8::%d \n", 1+p), "stallBeforeHeaders", "status:302:moved"))
+					fmt.Sprintf("status:%d:nope", clientStatus(rng)), fmt.Sprintf("splitBody:%d:%d:198.51.100.%d\n", between(rng, 1, 12), pick(rng, 1, 50, 3000), 101+p), fmt.Sprintf("splitBody:%d:%d:%s198.51.100.%d", between(rng, 1, 90), pick(rng, 1, 50), strings.Repeat(" ", between(rng, 0, 80)), 121+p), fmt.Sprintf("status:200:\n\t 198.51.100.%d \r\n", 1+p), fmt.Sprintf("gzip:198.51.100.%d\n", 171+p), fmt.Sprintf("status:200:2001:DB8::%X", 10+p), "status:200:1.2.3", "status:200:256.1.1.1", "status:200:<html><body>198.51.100.9</body></html>", fmt.Sprintf("status:203:198.51.100.%d", 1+p), fmt.Sprintf("status:%d:198.51.100.%d", clientStatus(rng), 150+p), "status:200:not-an-ip", "status:200:", fmt.Sprintf("status:200:  2001:db8::%d \n", 1+p), "stallBeforeHeaders", "status:302:moved"))
 			}
 			sc.HTTP = append(sc.HTTP, sim.HTTPPlan{Provider: p, Script: script})
 		}
@@ -481,6 +481,12 @@ func scriptOutcome(s string) (kind string, ip string) {
 		a, err := netip.ParseAddr(strings.TrimSpace(body))
 		if err != nil {
 			return "permanent", "" // invalid body
+		}
+		return "ok", a.String()
+	case "gzip":
+		a, err := netip.ParseAddr(strings.TrimSpace(args))
+		if err != nil {
+			return "permanent", ""
 		}
 		return "ok", a.String()
 	case "splitBody":
